@@ -138,6 +138,34 @@ claim("C17", "other",
       "The Go memory model and the race detector's coverage cannot be carried by a theorem; named as the runtime residue.",
       "Rocq commutation theorem + source-level frame check on generated code + race-detector exploration", "6 C17")
 
+claim("C01", "proof",
+      "Coq theorems (Properties/C01.v): (a) the Scan loop relative to ANY DFA satisfies ScanSpec (longest viable text, the token the text "
+      "matches, INVALID owns the killing rune, ignored text restarts at once, EOF for ever; deterministic and complete); (b) a derivative "
+      "semantics of the lexical rules (regular definitions as macros, contextual '.', string literal first then earliest declaration) proved "
+      "Brzozowski-correct against the textbook matches relation for dot-free rules; (c) soundness of bisim_check: check = true implies the "
+      "emitted DFA and the definitional tokenizer return the same tokens on ALL byte strings. On every run the verified checker is executed on "
+      "(lexical part as gocc parsed it, DFA re-read from the emitted Go files) for every grammar (extracted), and by the Coq kernel "
+      "(vm_compute) for a sample; compiled lexers are compared with the definitional tokenizer on generated inputs.",
+      "Coq kernel; extraction; verifdump lexdump prints the AST gocc parsed; multi-character regular definitions: recorded findings (3 witnesses) "
+      "until the macro-expansion fix lands; imports outside the model.",
+      "Rocq proof (derivatives + verified bisimulation checker = per-grammar translation validation for all inputs) + differential correspondence", "6 C01")
+claim("C07", "proof",
+      "Coq theorems (Properties/C07.v) for every table passing the validator: Parse never panics with recovery enabled; exact step "
+      "specification of Error() (cut to the topmost recovering state, error attribute with offending token / discarded attributes / expected "
+      "list, skipping starts with the offending token); tokens reach actions at most once and in input order; on sentences the error "
+      "alternatives are inert (result = post-order evaluation, Error() never entered); termination for conflict-free canonical tables (a "
+      "looping non-canonical table is exhibited). Validator conditions evaluated by the Coq kernel on gocc's tables per grammar; compiled "
+      "parser vs model on valid, singly and multiply erroneous inputs; oracle: no panic/hang, token order, inertness.",
+      LR_NOTE + " 'error' occurs only as first symbol of an alternative.",
+      "Rocq proof (structural stack invariant through recovery, progress after recovery) + kernel-evaluated translation validation + differential correspondence", "6 C07")
+claim("C09", "other",
+      "Partial. Rocq carries termination of the modelled algorithms (total Gallina functions, fuel adequacy proved: generated Scan, generated "
+      "Parse on validated canonical tables, markdown blanking, front-end scanner totality). That text/template, go/format, the Go compiler "
+      "and the OS produce complete compilable output cannot be expressed as a theorem about an executable model: explored by running the real "
+      "binary under a time limit on hostile and mutated grammars with 11 flag sets and compiling every output produced with status 0.",
+      "Exploration only for the template/compiler/OS part; 30 s stands for termination.",
+      "Rocq termination lemmas for modelled parts + exploration of the tool with compile check", "6 C09")
+
 ALL = ["C%02d" % i for i in range(1, 21)]
 NOT_YET = "framework under construction: check for this property not built yet (planned, see DESIGN.md section 6)"
 
